@@ -505,7 +505,18 @@ func (x *Exec) doSelect(s *State, f *Frame, in *ssa.Select) bool {
 				f.PC++
 				x.push(ns)
 			case timer >= 0:
-				// nothing else can proceed: time passes and the timer fires
+				// time passes only when nothing else can proceed: the other runnable goroutines run
+				// first (the select is re-evaluated afterwards), then the timer fires
+				me := ns.thread()
+				for i, t := range ns.Threads {
+					if i != ns.Cur && !t.Done && t.Blocked == nil && !t.Quiescing {
+						me.Quiescing = true
+						ns.Cur = i
+						x.push(ns)
+						return false
+					}
+				}
+				me.Quiescing = false
 				fire(ns, ns.top(), timer)
 			default:
 				x.block(ns, "select", 0)
